@@ -117,8 +117,26 @@ def run(cfg):
             os.makedirs(os.path.dirname(p), exist_ok=True)
             with open(p, 'w') as f:
                 f.write(file_text(ns, imports, defines, cfg.get('comments', ())))
+        classes = []
+        if cfg.get('user_classes'):
+            # Python user classes for the U_* rules of all files, each derived from the previous one
+            def init(self, parent=None, **kw):
+                self.parent = parent
+                for k, v in kw.items():
+                    setattr(self, k, v)
+            base = object
+            reach_, todo_ = set(), ['root']
+            while todo_:
+                n_ = todo_.pop()
+                if n_ not in reach_:
+                    reach_.add(n_)
+                    todo_ += [i for _, i in imports[n_]]
+            for ns in FILES:
+                if ns in reach_ and resolve(ns, imports, defines):
+                    base = type('U_%s' % tag(ns), (base,), {'__init__': init})
+                    classes.append(base)
         try:
-            mm = metamodel_from_file(os.path.join(tmp, 'root.tx'))
+            mm = metamodel_from_file(os.path.join(tmp, 'root.tx'), classes=classes)
         except Exception as e:  # noqa
             return ['the grammar tree does not compile: %s: %s' % (type(e).__name__, str(e).replace(tmp, '')[:120])]
         # reachable files
@@ -233,6 +251,7 @@ def explore(item):
             cfg = {'root_order': root_order, 'a_order': c.branch(z3.Bool('a_imports_reversed')),
                    'cycle': c.branch(z3.Bool('leaf_imports_deep_back')), 'diamond': c.branch(z3.Bool('root_imports_pkg_leaf'))}
             cfg['defines'] = [f for f in MAY_DEFINE if c.branch(z3.Bool('defines_X_%s' % tag(f)))]
+            cfg['user_classes'] = c.branch(z3.Bool('user_classes_for_the_U_rules'))
         try:
             probs = run(cfg)
         except Exception as e:  # noqa
